@@ -254,6 +254,11 @@ def gen_case(ctx, rng, p_invalid=0.0):
         spec[0]["x"] = T.make_expression([["MUSS", None]], rng)
     if rng.random() < 0.4:
         T.assign_line_indexes(spec, rng)
+    if rng.random() < 0.25:
+        # free-text data elements without discriminator (maus: "None if the data element was not found in the MIG")
+        for node in T.walk(spec):
+            if node["k"] == "F" and rng.random() < 0.3:
+                node["nod"] = True
     pkg = T.abbreviate_spec(spec, rng) if rng.random() < 0.35 else {}
     return {"spec": spec, "asg": draw_assignment(rng, POOLS.rc), "soll": rng.random() < 0.5, "schedule_seed": rng.randrange(1 << 30), "pkg": pkg}
 
